@@ -466,6 +466,9 @@ def R(design):
         raise Invalid("anon_module", "")
     if len(set(rn)) != len(rn):
         raise Invalid("module_name_clash", str(rn))
+    for sm, sa in design.get("steal", ()):
+        if sm in reach:
+            raise Invalid("orphan", f"{sm}.{sa} was taken over by another module")
     walk(design, design["top"], (), uf, devices, [])
     mod = design["modules"][design["top"]]
     keep = set()
